@@ -84,6 +84,17 @@ partial def loop (h : IO.FS.Stream) (d : DS) : IO Unit := do
       IO.println s!"R sent={id}"
       loop h d
     | _ => IO.println "R sent=none"; loop h d
+  | .wq, ["O", "sendlast"] =>
+    -- with a single drainer at most one conn write is in flight: "release the youngest" = "release the only one"
+    match d.sq.dr with
+    | .sending =>
+      let f := d.sq.list[d.sq.idx]?
+      let good := !d.sq.dead
+      let d := sqRun d (if good then [.send true, .advance] else [.send false])
+      let id := if good then (f.map fun f => s!"{f.1}:{f.2}").getD "?" else "fail"
+      IO.println s!"R sent={id}"
+      loop h d
+    | _ => IO.println "R sent=none"; loop h d
   | .wq, ["O", "close"] => IO.println "R ok"; loop h (sqRun d [.close])
   | .wq, ["Q"] => IO.println s!"R wire={wireStr d} ql={d.sq.list.length}"; loop h d
   | .wd, "O" :: "par" :: rest =>
